@@ -5,7 +5,7 @@
 (* every insertion order; with the container shortcut (the comparison found in  *)
 (* the code) a whole-record area and an origin-spanning area are each "before"  *)
 (* the other and the numbers depend on the insertion order (negative control).  *)
-EXTENDS Order, TLC, FiniteSets
+EXTENDS Order, TLC, FiniteSets, FiniteSetsExt
 CONSTANTS Len0, Comparison
 VARIABLES todo, list
 vars == <<todo, list>>
@@ -18,7 +18,7 @@ ASSUME PrintT(<<"AREAS", [circ \in BOOLEAN |-> Spans([L |-> Len0, circ |-> circ]
 ASSUME PrintT(<<"FEATURES", [circ \in BOOLEAN |-> FeatureUniverse([L |-> Len0, circ |-> circ])]>>)
 Lt(a, b) == IF Comparison = "key" THEN KeyBefore(R0, a, b) ELSE ShortcutBefore(R0, a, b)
 
-Init == /\ todo \in {S \in SUBSET Universe : Cardinality(S) = 3}
+Init == /\ todo \in kSubset(3, Universe)
         /\ list = <<>>
 Add(x) == /\ x \in todo
           /\ todo' = todo \ {x}
